@@ -10,11 +10,13 @@ Record case := mkCase {
   c_orig : dev;          (* device before Run *)
   c_scn : Z;             (* 1 second load fails after init, 2 second load empty (attach fails), 3 no RPM sensor (sweep, nothing stored),
                             4 control error with the device gone, 5 control error, 6 cancel while ticking,
-                            7 placeholder data cannot be saved, 8 initialisation sequence fails *)
+                            7 placeholder data cannot be saved, 8 initialisation sequence fails,
+                            9 never-stop fan stalled at max PWM, 10 ... after the minimum was raised step by step *)
   c_top : Z;             (* PWM at which the start-up activity leaves the fan *)
   o_ret : Z;             (* 0 nil, 1 error, 2 panic, 3 did not return *)
   o_touched : bool;      (* some write reached the fan *)
   o_dev : dev;
+  o_evals : Z;           (* curve evaluations (= control cycles) until Run returned *)
 }.
 
 Definition plan_ok : rplan := mkPlan WOk WOk ROk WOk.
@@ -30,7 +32,7 @@ Definition sched_of (c : case) : list event :=
   match c_scn c with
   | 1 | 2 | 3 => [ok; ok; Advance 0%nat (mk false true false false (left c)); Advance 0%nat (mk true false false false (left c))]
   | 4 => ticking ++ [Tick 0%nat (mkTick (left c) true plan_gone); SigRecv; RpmDone 0%nat]
-  | 5 => ticking ++ [Tick 0%nat (mkTick (left c) true plan_ok); SigRecv; RpmDone 0%nat]
+  | 5 | 9 | 10 => ticking ++ [Tick 0%nat (mkTick (left c) true plan_ok); SigRecv; RpmDone 0%nat]
   | 6 => ticking ++ [SigRecv; ok; RpmDone 0%nat]
   | 7 => [ok; ok; Advance 0%nat (mk true true true false (left c))]
   | 8 => [ok; ok; Advance 0%nat (mk true true false false (left c))]
@@ -41,7 +43,7 @@ Definition sched_of (c : case) : list event :=
    lets Run return); in the one-controller model the signal actor stands for the canceller *)
 Definition start (c : case) : proc :=
   let s := init [(BHwmon, c_exists c, negb (c_scn c =? 3), c_orig c)] 0 in
-  if (4 <=? c_scn c) && (c_scn c <=? 6) then mkProc (ctrls s) (mons s) (cancelled s) true (sig_closed s) (sig_done s) (first_done s) (first_err s) (st s) else s.
+  if ((4 <=? c_scn c) && (c_scn c <=? 6)) || (9 <=? c_scn c) then mkProc (ctrls s) (mons s) (cancelled s) true (sig_closed s) (sig_done s) (first_done s) (first_err s) (st s) else s.
 
 Definition model (D : Defects) (c : case) : proc := exec D (start c) (sched_of c).
 
